@@ -8,8 +8,9 @@ of a partner at any point, also from inside a handler while a propagation is in
 flight; gc.  The model propagates along the directed link graph.
 """
 import gc
+import sys
 
-from ..core import Violation, HarnessError, stream, sut, exc_name
+from ..core import Violation, HarnessError, InjectedFault, stream, sut, exc_name
 from ..values import raw
 from . import c05
 
@@ -140,7 +141,15 @@ class Prop:
         edges = set()            # ((i, t), (j, u)) directed
         routed = []
         self._pushed = False
-        push_exception_handler(lambda o, n, old, new: routed.append((getattr(o, "uid", None), n)),
+        def on_exc(o, n, old, new):
+            # our own injected validator fault leaving a synchronisation handler is the
+            # user's exception being reported, not a failure of the machinery: what
+            # matters for the property is what the lists and values look like afterwards
+            if isinstance(sys.exc_info()[1], InjectedFault):
+                env.probe("injected-fault-reported-by-sync-handler")
+                return
+            routed.append((getattr(o, "uid", None), n))
+        push_exception_handler(on_exc,
                                reraise_exceptions=False)
         self._pushed = True
         calls = []
